@@ -37,7 +37,7 @@ def key (x : LogEntry) : Nat × Nat := (x.time, x.idx)
 
 /-- the records a step added, oldest first -/
 def newRecs (before after : St) : List (Nat × Nat) :=
-  ((after.log.take (after.log.length - before.log.length)).reverse).map key
+  ((after.log.take (after.nobs - before.nobs)).reverse).map key
 
 def takeIdx (i : Nat) : List Entry → Option (Entry × List Entry)
   | [] => none
@@ -94,7 +94,7 @@ def settle (P : Params) (t : Nat) : Nat → St → St × Option Verdict
       | none => (s, some (.left t e))
       | some (e', s1) =>
         let s2 := pollTask P e' { s1 with phase := .tick }
-        if s2.log.length = s1.log.length then settle P t n s2 else (s, some (.left t e))
+        if s2.nobs = s1.nobs then settle P t n s2 else (s, some (.left t e))
 
 /-- consume the records of the instant, then nothing may be left runnable -/
 def sFinish (P : Params) (t : Nat) (recs : List (Nat × Nat)) (pos : Nat) (s1 : St) :
